@@ -1198,3 +1198,21 @@ def format_parts(prov, fn, o):
     if tpl[0] == "const" and tpl[1] in ("bytes", "str"):
         return tpl[2], args
     return None
+
+
+CONVERSIONS = {"from", "into", "to_string", "to_owned", "clone", "as_str", "as_ref", "as_bytes", "to_vec", "into_string", "unchecked", "deref", "borrow",
+               "as_slice", "into_vec", "into_bytes", "to_bytes", "as_mut"}
+
+
+def just(o, pred, depth=0):
+    """`o` IS the value `pred` recognises - looked at through references, clones and type conversions (`String::from`, `.into()`,
+    `Addr::unchecked`, `.to_string()`, `.to_vec()`, ..) - not something computed from it: `x.to_lowercase()`, `&x[..n]`, `x / 2`,
+    `f(x)` merely *mention* x.  (The counterpart of `contains` for obligations of the form "the value stored / sent is X".)"""
+    o = peel(o)
+    if pred(o):
+        return True
+    if depth < 6 and o[0] == "call" and len(o[2]) == 1 and o[1].rsplit("::", 1)[-1] in CONVERSIONS:
+        return just(o[2][0], pred, depth + 1)
+    if depth < 6 and o[0] == "multi":
+        return all(just(x, pred, depth + 1) for x in o[1])
+    return False
